@@ -18,6 +18,14 @@ Theorem c07_roundtrip : forall toks out,
 Proof. exact dec_impl_enc_impl. Qed.
 Print Assumptions c07_roundtrip.
 
+(* no misread, at the level of a whole message and for ALL byte strings: whatever the decoder accepts has exactly the
+   requested field types, every field well-formed, and is a value the encoder itself would accept *)
+Theorem c07_decode_sound : forall tys data toks,
+  dec_impl tys data = Some toks ->
+  map type_of toks = tys /\ Forall wf_token toks /\ enc_spec toks <> None.
+Proof. exact dec_impl_sound. Qed.
+Print Assumptions c07_decode_sound.
+
 (* consequence of the round trip: two well-formed messages of one shape never share their wire bytes *)
 Theorem c07_encoding_injective : forall toks1 toks2 out,
   Forall wf_token toks1 -> Forall wf_token toks2 ->
@@ -128,3 +136,5 @@ Check c07_struct_exact : forall k data, dec_struct k data = dec_struct_spec k da
 Check c07_encoding_injective : forall toks1 toks2 out, Forall wf_token toks1 -> Forall wf_token toks2 ->
   spec_size toks1 < 2 ^ 32 -> spec_size toks2 < 2 ^ 32 -> map type_of toks1 = map type_of toks2 ->
   enc_impl toks1 = Some out -> enc_impl toks2 = Some out -> toks1 = toks2.
+Check c07_decode_sound : forall tys data toks, dec_impl tys data = Some toks ->
+  map type_of toks = tys /\ Forall wf_token toks /\ enc_spec toks <> None.
